@@ -404,10 +404,11 @@ class FnGen:
         a = rng.choice(names) if names else rng.choice(INT_LITS)
         r = rng.random()
         if r < 0.7 or len(names) < 2:
-            return f"{a} {rng.choice(['>', '<', '>=', '<=', '==', '!='])} {rng.choice(['0', '1', '2', '5', '0.5'])}"
+            return f"({a} {rng.choice(['>', '<', '>=', '<=', '==', '!='])} {rng.choice(['0', '1', '2', '5', '0.5'])})"
         if r < 0.9:
-            return f"{a} {rng.choice(['>', '<', '>='])} {rng.choice(names)}"
-        return f"not ({a} > 1)"
+            b = rng.choice([n for n in names if n != a] or names)
+            return f"({a} {rng.choice(['>', '<', '>='])} {b})"
+        return f"(not ({a} > 1))"
 
     # ---- one helper body
     def body(self, params, earlier):
